@@ -4,9 +4,12 @@
    (which emit the same universes, with the allowed outcomes, for replay against the real code).
 
    Large universes are never built as TLA+ sets (TLC normalises sets of deep tuples very slowly):
-   level-1 expressions are an explicit sequence L1, level-2 expressions are *decoded from an index*
-   through a list of schemas  Wrap(s, x, k)  with x from L1 and the k-th operand of a small pool.
-   Index space: 0 .. total-1. *)
+   level-1 expressions are an explicit sequence L1; deeper expressions are *decoded from an index*
+   through a list of schemas  Wrap(s, x, k)  (x an expression, k the index of an operand in a small
+   pool).  With S = number of (schema, operand) codes, the index space is
+       0 .. N1-1               L1 itself                      (if EmitL1)
+       then N1*S               Wrap(c1, L1[x])                (Depth >= 2)
+       then N1*S*S             Wrap(c2, Wrap(c1, L1[x]))      (Depth >= 3)                      *)
 EXTENDS Universe, SequencesExt
 
 CONSTANT Family
@@ -17,12 +20,18 @@ IdxL(l, n) == IdxE(l, Index(n))
 FieldsQ == <<fA, fB, fC, fE>>
 IdxsQ == <<0, 1, -1, -2, 5>>
 SeqSet(s) == {s[i] : i \in 1..Len(s)}
+SliceOf(x, a, b, c) == Proj(IdxE(x, SliceN(a, b, c)), Identity)
+C1(name, a) == Call1(name, a)
+C2(name, a, b) == Call2(name, a, b)
+ErrAbs == C1("abs", LitA)                       \* abs('a'): invalid type, always an error
+ErrUnknown == Fn(<<110, 111, 115, 117, 99, 104>>, <<Current>>)   \* nosuch(@)
+ErrArity == Fn(NameCps["abs"], <<>>)            \* abs()
+ErrStep0 == SliceOf(Current, NoneP, NoneP, IntP(0))              \* @[::0] : error on arrays only
 
 (* ---------------- C01: core fragment ------------------------------------------------------ *)
 CoreLeaves == SeqSet(FieldsQ) \cup {IdxI(IdxsQ[n]) : n \in 1..Len(IdxsQ)}
               \cup {Current, Lit(I(1)), LitA, Lit(Null), Lit(A0), Lit(O1(cA, I(1))), Lit(A2(I(1), S(cB)))}
 CorePool == <<fA, fB, fC, IdxI(0), IdxI(-1), Current, Lit(I(1)), Lit(O1(cA, I(1))), Lit(A2(I(1), S(cB)))>>
-(* schema s applied to x (any expression) and the k-th operand; returns <<"none">> when k is out of range *)
 CoreNS == 14
 CoreDim(s) == CASE s = 1 -> Len(FieldsQ) [] s = 2 -> Len(IdxsQ) [] s \in {5, 8} -> 1 [] OTHER -> Len(CorePool)
 CoreWrap(s, x, k) ==
@@ -43,31 +52,290 @@ CoreWrap(s, x, k) ==
     [] s = 14 -> Pipe(Pipe(r, x), fA)
 CoreL1 == SetToSeq(CoreLeaves \cup UNION {{CoreWrap(s, x, k) : k \in 1..CoreDim(s)} : s \in 1..CoreNS, x \in CoreLeaves})
 
+(* ---------------- C02: projections -------------------------------------------------------- *)
+ProjBases == {Identity, fA, fB, Current}
+ProjRhs == <<Identity, fA, fB, IdxI(0), IdxI(-1), MSL(<<fA, fB>>), C1("type", Current), C1("not_null", fA),
+             C1("abs", Current), C1("length", Current), Proj(Identity, Identity), VProj(Identity, Identity)>>
+ProjConds == <<fA, Cmp("eq", fA, Lit(I(1))), Cmp("gt", Current, Lit(I(1))), Current, Not(fB)>>
+ProjSlices == << <<NoneP, NoneP, IntP(2)>>, <<IntP(1), NoneP, NoneP>>, <<NoneP, IntP(-1), NoneP>>, <<NoneP, NoneP, IntP(-1)>> >>
+ProjL1 == SetToSeq(
+      {Proj(b, r) : b \in ProjBases, r \in SeqSet(ProjRhs)}
+ \cup {Proj(Flat(b), r) : b \in ProjBases, r \in SeqSet(ProjRhs)}
+ \cup {Filt(b, r, c) : b \in ProjBases, r \in SeqSet(ProjRhs), c \in SeqSet(ProjConds)}
+ \cup {Proj(IdxE(b, <<"Slice", p>>), r) : b \in ProjBases, r \in SeqSet(ProjRhs), p \in SeqSet(ProjSlices)}
+ \cup {VProj(b, r) : b \in ProjBases, r \in SeqSet(ProjRhs)})
+ProjPool == <<Identity, fA, fB, IdxI(0), MSL(<<fA>>), C1("type", Current), C1("abs", Current), Current, Lit(I(1)), Lit(A0)>>
+ProjNS == 19
+ProjDim(s) == CASE s \in {1, 2, 4} -> 7 [] s = 3 -> Len(ProjConds) [] s \in {5, 18} -> 7 [] s = 6 -> 3 [] s \in {7, 8} -> 3
+                [] s = 9 -> 3 [] s = 11 -> 2 [] OTHER -> 1
+ProjWrap(s, x, k) ==
+  LET r == ProjPool[k] IN
+  CASE s = 1 -> Proj(x, r)
+    [] s = 2 -> Proj(Flat(x), r)
+    [] s = 3 -> Filt(x, Identity, ProjConds[k])
+    [] s = 4 -> VProj(x, r)
+    [] s = 5 -> Pipe(x, <<fA, fB, IdxI(0), Current, Proj(Identity, Identity), Proj(Flat(Identity), Identity), C1("length", Current)>>[k])
+    [] s = 6 -> IdxL(x, <<0, -1, 1>>[k])
+    [] s = 7 -> Or(x, <<fA, Lit(I(1)), Lit(A0)>>[k])
+    [] s = 8 -> And(x, <<fA, Lit(I(1)), Lit(A0)>>[k])
+    [] s = 9 -> Cmp("eq", x, <<Lit(A0), Lit(Null), Lit(A1(I(1)))>>[k])
+    [] s = 10 -> Not(x)
+    [] s = 11 -> Sub(x, <<fA, MSL(<<fA>>)>>[k])
+    [] s = 12 -> Proj(fB, x)
+    [] s = 13 -> Proj(Flat(fA), x)
+    [] s = 14 -> Filt(fB, x, fA)
+    [] s = 15 -> VProj(fA, x)
+    [] s = 16 -> MSL(<<x, fA>>)
+    [] s = 17 -> C1("length", x)
+    [] s = 18 -> Pipe(<<fA, fB, IdxI(0), Current, Proj(Identity, Identity), Proj(Flat(Identity), Identity), VProj(Identity, Identity)>>[k], x)
+    [] s = 19 -> Proj(Flat(Proj(Flat(x), Identity)), Identity)
+PM == {A0, A3(I(1), Null, S(cA)), A3(A2(I(1), I(2)), A1(I(3)), A0), A2(A1(A1(I(1))), A1(Null)),
+       A3(O2(cA, I(1), cB, A2(I(1), I(2))), O1(cA, Null), O1(cB, I(2))),
+       O2(cA, O1(cA, I(1)), cB, O1(cA, I(2))), O0, Null, S(cAB),
+       A2(O1(cA, A1(O1(cA, I(1)))), O1(cA, A0)), O2(cA, A2(I(1), I(2)), cB, Null), A2(I(2), I(3))}
+PMQ == {A0, A3(I(1), Null, S(cA)), A3(A2(I(1), I(2)), A1(I(3)), A0), A2(A1(A1(I(1))), A1(Null)),
+        A3(O2(cA, I(1), cB, A2(I(1), I(2))), O1(cA, Null), O1(cB, I(2))),
+        O2(cA, O1(cA, I(1)), cB, O1(cA, I(2))), Null, A2(O1(cA, A1(O1(cA, I(1)))), O1(cA, A0))}
+DocsProj == {O2(cA, x, cB, y) : x \in (IF Thorough THEN PM ELSE PMQ), y \in (IF Thorough THEN PM ELSE PMQ)}
+            \cup {A0, O0, Null, I(1), S(cA), A3(I(3), I(1), I(2)), A2(A2(I(1), I(2)), A2(A1(I(3)), Null)),
+                  A3(O1(cA, I(1)), O2(cA, I(2), cB, I(1)), O1(cB, I(3))), O2(cA, O1(cA, I(1)), cB, O1(cB, I(2))),
+                  O2(cA, A2(I(1), I(2)), cB, A1(I(3))), A2(O1(cA, A2(I(1), I(2))), O1(cA, A1(I(3))))}
+
+(* ---------------- C07: truthiness, logical operators, comparators ------------------------- *)
+V7 == IF Thorough THEN Scal \cup LookAlikes \cup {A2(I(1), I(2)), A2(I(2), I(1)), O1(cA, I(1)), O1(cA, S(<<49>>)), O2(cA, I(1), cB, I(2)), O1(cB, I(1)), A1(O0)}
+      ELSE ScalCore \cup {I(2), Half, S(cB), S(<<49>>), S(<<48>>), S(<<116, 114, 117, 101>>), A0, O0, A1(I(1)), A1(S(<<49>>)), A1(Null), A2(I(1), I(2)), O1(cA, I(1)), O1(cA, S(<<49>>))}
+V7Seq == SetToSeq(V7)
+CmpSeq == <<"eq", "ne", "lt", "lte", "gt", "gte">>
+OpL1 == SetToSeq({Lit(v) : v \in V7} \cup {ErrAbs})
+OpNS == 17
+OpDim(s) == IF s = 17 THEN 1 ELSE Len(V7Seq) + 1      \* the extra operand is the erroring expression
+OpOperand(k) == IF k <= Len(V7Seq) THEN Lit(V7Seq[k]) ELSE ErrAbs
+OpWrap(s, x, k) ==
+  LET r == OpOperand(k) IN
+  CASE s \in 1..6 -> Cmp(CmpSeq[s], x, r)
+    [] s \in 7..12 -> Cmp(CmpSeq[s - 6], r, x)
+    [] s = 13 -> Or(x, r)
+    [] s = 14 -> Or(r, x)
+    [] s = 15 -> And(x, r)
+    [] s = 16 -> And(r, x)
+    [] s = 17 -> Not(x)
+(* the same operators with both operands taken from the document, also inside filter conditions *)
+OpDocL1 == SetToSeq(
+      {Cmp(op, fA, fB) : op \in CmpOps} \cup {Or(fA, fB), And(fA, fB), Not(fA), Not(Not(fA)), Or(fA, ErrAbs), And(fA, ErrAbs)}
+ \cup {Filt(Identity, Identity, Cmp(op, fA, fB)) : op \in CmpOps}
+ \cup {Filt(Identity, fA, c) : c \in {Or(fA, fB), And(fA, fB), Not(fA), fA, Or(fA, ErrAbs)}}
+ \cup {Filt(Identity, Identity, Cmp(op, fA, Lit(I(1)))) : op \in CmpOps})
+DocsOp == {O2(cA, x, cB, y) : x \in V7, y \in V7}
+          \cup {A3(O2(cA, x, cB, y), O2(cA, y, cB, x), O2(cA, x, cB, x)) : x \in V7, y \in V7}
+
+(* ---------------- C09 / C10: built-in functions ------------------------------------------- *)
+NumsQ == {I(-1), I(0), I(1), I(2), Half}
+StrsA == {S(cEmpty), S(cA), S(cB), S(cAB), S(cEacute), S(cClef)}
+Chars4 == {97, 98, 233, 119070}
+Strs2 == {S(<<>>)} \cup {S(<<c>>) : c \in Chars4} \cup {S(<<c, d>>) : c \in Chars4, d \in Chars4}
+Strs3ab == {S(<<>>)} \cup {S(<<c>>) : c \in {97, 98}} \cup {S(<<c, d>>) : c \in {97, 98}, d \in {97, 98}}
+           \cup {S(<<c, d, e>>) : c \in {97, 98}, d \in {97, 98}, e \in {97, 98}}
+ObjElems == {O2(cA, I(1), cB, S(<<120>>)), O2(cA, I(1), cB, S(<<121>>)), O2(cA, I(0), cB, S(<<122>>)), O1(cA, S(<<115>>)), O1(cB, I(1))}
+FnObjs == {O0, O1(cA, I(1)), O2(cA, I(1), cB, I(2)), O1(cB, I(3)), O2(cA, S(<<120>>), cC, Null), O1(cA, O1(cA, I(1)))}
+FnMixed == {A2(I(1), S(cA)), A1(Null), A2(A1(I(1)), A1(I(2))), A1(Bool(TRUE)), A2(A1(I(1)), I(1)), A2(O0, O0), A3(I(2), I(10), I(1)), A3(S(<<49, 48>>), S(<<57>>), S(<<65>>))}
+FnNumStrs == {S(<<49>>), S(<<45, 49>>), S(<<49, 46, 53>>), S(<<48, 46, 50, 53>>), S(<<49, 50>>), S(<<48>>), S(<<45, 48, 46, 53>>),
+              S(<<43, 49>>), S(<<46, 53>>), S(<<48, 49>>), S(<<49, 95, 48>>), S(<<49, 101, 50>>), S(<<32, 49>>), S(<<49, 32>>),
+              S(<<105, 110, 102>>), S(<<110, 97, 110>>), S(<<73, 110, 102, 105, 110, 105, 116, 121>>), S(<<45, 105, 110, 102>>),
+              S(<<49, 101, 52, 48, 48>>), S(<<48, 120, 49, 112, 45, 50>>), S(<<120>>), S(<<116, 114, 117, 101>>), S(<<45>>), S(<<49, 46>>)}
+FnVals == IF Thorough
+          THEN Scal \cup Arrs3Over(NumsQ) \cup Arrs3Over(StrsA) \cup Strs2 \cup Strs3ab \cup FnObjs \cup Arrs3Over(ObjElems) \cup FnMixed \cup FnNumStrs
+          ELSE Scal \cup ArrsOver(NumsQ) \cup {A3(I(2), Half, I(-1)), A3(I(1), I(1), I(0))} \cup ArrsOver(StrsA) \cup {A3(S(cB), S(cAB), S(cA))}
+               \cup Strs3ab \cup {S(<<233, 97>>), S(<<119070, 233>>)} \cup FnObjs \cup ArrsOver(ObjElems)
+               \cup {A3(O2(cA, I(1), cB, S(<<120>>)), O2(cA, I(0), cB, S(<<122>>)), O2(cA, I(1), cB, S(<<121>>)))} \cup FnMixed \cup FnNumStrs
+FnL1 == SetToSeq({Lit(v) : v \in FnVals})
+OneArg == <<"abs", "avg", "ceil", "floor", "keys", "length", "max", "min", "reverse", "sort", "sum", "to_array", "to_string",
+            "to_number", "type", "values", "not_null", "merge">>
+StrOps == SetToSeq({Lit(v) : v \in Strs3ab \cup {S(cEacute), S(<<233, 97>>), S(cClef)}})
+KeyExprs == <<Current, fA, fB, IdxI(0), C1("length", Current), C1("to_number", fA), Lit(Null), Lit(I(1)), C1("abs", fA), C1("to_string", fA)>>
+SecondArgs == <<Lit(Null), Lit(I(1)), Lit(S(cA)), Lit(A0), Lit(A1(I(1))), Lit(A1(S(cA))), Lit(O0), Lit(O1(cA, I(2))), Lit(O1(cB, I(9))), Lit(Bool(FALSE)),
+                Lit(A2(I(1), I(2))), Ref(fA)>>
+Seps == <<Lit(S(cEmpty)), Lit(S(<<44>>)), Lit(S(cEacute)), Lit(I(1))>>
+FnNS == 33
+FnDim(s) == CASE s <= 18 -> 1 [] s = 19 -> 1 [] s \in 20..22 -> Len(StrOps) [] s = 23 -> Len(SecondArgs) [] s = 24 -> Len(SecondArgs)
+              [] s = 25 -> Len(Seps) [] s \in 26..29 -> Len(KeyExprs) [] s \in 30..33 -> Len(SecondArgs)
+FnWrap(s, x, k) ==
+  CASE s <= 18 -> C1(OneArg[s], x)
+    [] s = 19 -> Pipe(x, C1("length", Current))
+    [] s = 20 -> C2("contains", x, StrOps[k])
+    [] s = 21 -> C2("starts_with", x, StrOps[k])
+    [] s = 22 -> C2("ends_with", x, StrOps[k])
+    [] s = 23 -> C2("contains", x, SecondArgs[k])
+    [] s = 24 -> C2("contains", SecondArgs[k], x)
+    [] s = 25 -> C2("join", Seps[k], x)
+    [] s = 26 -> C2("map", Ref(KeyExprs[k]), x)
+    [] s = 27 -> C2("sort_by", x, Ref(KeyExprs[k]))
+    [] s = 28 -> C2("max_by", x, Ref(KeyExprs[k]))
+    [] s = 29 -> C2("min_by", x, Ref(KeyExprs[k]))
+    [] s = 30 -> C2("merge", x, SecondArgs[k])
+    [] s = 31 -> C2("merge", SecondArgs[k], x)
+    [] s = 32 -> C2("not_null", x, SecondArgs[k])
+    [] s = 33 -> C2("not_null", SecondArgs[k], x)
+(* nesting a call in the other constructs (the call reads the document) *)
+FnNestL1 == SetToSeq(UNION {{C1(OneArg[s], a) : s \in 1..Len(OneArg)} : a \in {fA, Current}}
+                     \cup {C2("sort_by", fA, Ref(fA)), C2("max_by", fA, Ref(fA)), C2("map", Ref(fA), fA), C2("contains", fA, Lit(I(1))),
+                           C2("join", Lit(S(<<44>>)), fA), C2("starts_with", fA, LitA), C2("merge", fA, Lit(O1(cB, I(2))))})
+FnNestNS == 12
+FnNestDim(s) == 1
+FnNestWrap(s, x, k) ==
+  CASE s = 1 -> Proj(fB, x)            \* b[*].f(..)
+    [] s = 2 -> Filt(fB, Identity, x)  \* b[?f(..)]
+    [] s = 3 -> MSL(<<x, fA>>)
+    [] s = 4 -> MSH(<<KV(cA, x)>>)
+    [] s = 5 -> C1("to_array", x)
+    [] s = 6 -> C1("type", x)
+    [] s = 7 -> Pipe(x, C1("type", Current))
+    [] s = 8 -> Not(x)
+    [] s = 9 -> Or(x, LitA)
+    [] s = 10 -> Cmp("eq", x, Lit(Null))
+    [] s = 11 -> Sub(fB, x)            \* b.f(..)
+    [] s = 12 -> VProj(Identity, x)    \* *.f(..)
+FnDocVals == {I(1), I(-1), Half, S(cAB), S(cEmpty), A0, A3(I(2), Half, I(-1)), A2(S(cB), S(cA)), A2(I(1), S(cA)), O0, O2(cA, I(1), cB, I(2)), Null,
+              Bool(TRUE), A2(O1(cA, I(2)), O1(cA, I(1))), A2(O1(cA, S(cB)), O1(cA, S(cA)))}
+DocsFnNest == {O2(cA, x, cB, y) : x \in FnDocVals, y \in {A2(O1(cA, I(-1)), O1(cA, S(cA))), A2(I(1), S(cAB)), O1(cA, I(1)), A0, A2(A1(I(1)), A1(I(2)))}} \cup FnDocVals
+
+(* C10: the full matrix name x arity x argument-type tuple, decoded from the index *)
+Reps == <<Lit(Null), Lit(Bool(TRUE)), Lit(I(0)), Lit(S(cA)), Lit(A0), Lit(A1(I(1))), Lit(A1(S(cA))), Lit(A2(I(1), S(cA))), Lit(O0), Lit(O1(cA, I(1))), Ref(fA)>>
+NR == Len(Reps)
+MxNames == <<"abs", "avg", "ceil", "contains", "ends_with", "floor", "join", "keys", "length", "map", "max", "max_by", "merge", "min", "min_by",
+             "not_null", "reverse", "sort", "sort_by", "starts_with", "sum", "to_array", "to_string", "to_number", "type", "values">>
+MxNameCps(i) == IF i <= Len(MxNames) THEN NameCps[MxNames[i]]
+                ELSE IF i = Len(MxNames) + 1 THEN <<110, 111, 115, 117, 99, 104>>     \* nosuch
+                ELSE <<65, 98, 115>>                                                  \* Abs (names are case-sensitive)
+MxNNames == Len(MxNames) + 2
+MaxArity == IF Thorough THEN 4 ELSE 3
+RECURSIVE PowN(_, _)
+PowN(b, e) == IF e = 0 THEN 1 ELSE b * PowN(b, e - 1)
+RECURSIVE TupCount(_)
+TupCount(a) == IF a < 0 THEN 0 ELSE TupCount(a - 1) + PowN(NR, a)     \* tuples of length <= a
+RECURSIVE Digits(_, _)
+Digits(n, len) == IF len = 0 THEN <<>> ELSE <<Reps[(n % NR) + 1]>> \o Digits(n \div NR, len - 1)
+TupAt(j) == LET len == CHOOSE a \in 0..MaxArity : TupCount(a - 1) <= j /\ j < TupCount(a) IN Digits(j - TupCount(len - 1), len)
+MxTotal == MxNNames * TupCount(MaxArity)
+MxAt(i) == Fn(MxNameCps((i \div TupCount(MaxArity)) + 1), TupAt(i % TupCount(MaxArity)))
+(* the same matrix with the arguments taken from document fields (JSON representatives only) *)
+MxDocL1 == SetToSeq(UNION {{Fn(MxNameCps(n), SubSeq(<<fA, fB, fC>>, 1, a)) : a \in 0..3} : n \in 1..MxNNames})
+RepVals == {Null, Bool(TRUE), I(0), S(cA), A0, A1(I(1)), A1(S(cA)), A2(I(1), S(cA)), O0, O1(cA, I(1))}
+DocsMx == {Obj({<<cA, x>>, <<cB, y>>, <<cC, z>>}) : x \in RepVals, y \in RepVals, z \in (IF Thorough THEN RepVals ELSE {Null, S(cA), A1(I(1))})}
+(* _by functions: key expressions x arrays of length 0..3 *)
+ByElems == {I(1), S(cA), Null, O1(cA, I(1)), O1(cA, S(<<120>>)), O1(cA, Null), O1(cA, I(0))}
+ByArrs == IF Thorough THEN Arrs3Over(ByElems) ELSE ArrsOver(ByElems) \cup {A3(O1(cA, I(1)), O1(cA, I(0)), O1(cA, S(<<120>>))), A3(O1(cA, I(1)), O1(cA, I(0)), O1(cA, I(1)))}
+ByKeys == <<Current, fA, Lit(I(1)), Lit(S(<<115>>)), Lit(Null), C1("abs", Current), IdxI(0), C1("to_string", Current)>>
+ByL1 == SetToSeq(UNION {{C2(f, Lit(a), Ref(ByKeys[k])) : f \in {"sort_by", "max_by", "min_by"}, k \in 1..Len(ByKeys)} : a \in ByArrs}
+                 \cup {C2("map", Ref(ByKeys[k]), Lit(a)) : k \in 1..Len(ByKeys), a \in {A0, A1(I(1)), A2(S(cA), Null)}})
+
+(* ---------------- C11: error propagation through contexts --------------------------------- *)
+ErrL1 == <<ErrAbs, ErrUnknown, ErrArity, ErrStep0, C2("sort_by", Current, Ref(Current)), Lit(Null), fA>>
+CtxOps == <<fA, fB, Lit(I(1)), Lit(Null), Lit(A0), Current>>
+CtxNS == 38
+CtxDim(s) == IF s \in {1, 2, 3, 4, 5, 6, 9, 10} THEN Len(CtxOps) ELSE 1
+CtxWrap(s, x, k) ==
+  LET r == CtxOps[k] IN
+  CASE s = 1 -> Or(x, r)
+    [] s = 2 -> Or(r, x)
+    [] s = 3 -> And(x, r)
+    [] s = 4 -> And(r, x)
+    [] s = 5 -> Cmp("eq", x, r)
+    [] s = 6 -> Cmp("lt", r, x)
+    [] s = 7 -> Not(x)
+    [] s = 8 -> Sub(x, fA)
+    [] s = 9 -> Pipe(x, r)
+    [] s = 10 -> Pipe(r, x)
+    [] s = 11 -> IdxL(x, 0)
+    [] s = 12 -> MSL(<<x>>)
+    [] s = 13 -> MSL(<<fA, x>>)
+    [] s = 14 -> MSH(<<KV(cA, x)>>)
+    [] s = 15 -> Proj(x, Identity)
+    [] s = 16 -> Proj(fB, x)
+    [] s = 17 -> Proj(Flat(x), Identity)
+    [] s = 18 -> Proj(Flat(fB), x)
+    [] s = 19 -> Filt(x, Identity, Current)
+    [] s = 20 -> Filt(fB, x, Current)
+    [] s = 21 -> Filt(fB, Identity, x)
+    [] s = 22 -> VProj(x, Identity)
+    [] s = 23 -> VProj(fA, x)
+    [] s = 24 -> Proj(IdxE(x, SliceN(IntP(0), NoneP, NoneP)), Identity)
+    [] s = 25 -> C1("to_array", x)
+    [] s = 26 -> C1("type", x)
+    [] s = 27 -> C2("not_null", Lit(I(1)), x)
+    [] s = 28 -> C2("contains", fB, x)
+    [] s = 29 -> C2("map", Ref(x), fB)
+    [] s = 30 -> C2("sort_by", fB, Ref(x))
+    [] s = 31 -> C2("max_by", fB, Ref(x))
+    [] s = 32 -> C2("merge", fA, x)
+    [] s = 33 -> Sub(fA, x)
+    [] s = 34 -> Proj(IdxE(fB, SliceN(IntP(0), NoneP, NoneP)), x)
+    [] s = 35 -> C1("length", x)
+    [] s = 36 -> Pipe(Pipe(fA, x), fA)
+    [] s = 37 -> MSH(<<KV(cA, fA), KV(cB, x)>>)
+    [] s = 38 -> C2("min_by", fB, Ref(x))
+DocsCtx == {O2(cA, x, cB, y) : x \in {Null, I(1), O1(cA, I(1)), O0, A1(I(1))}, y \in {A0, A2(I(1), I(2)), A2(O1(cA, I(1)), O1(cA, I(2))), Null, O1(cA, I(1)), A2(S(cA), I(1))}}
+           \cup {A2(I(2), I(1)), A2(I(1), S(cA)), A0, Null, O0}
+
+(* ---------------- C16: results are JSON (numbers, empties) -------------------------------- *)
+JsonL1 == SetToSeq(
+     UNION {{C1(f, Lit(A0)), C1(f, fC), C1(f, fA)} : f \in {"avg", "sum", "max", "min", "sort", "reverse", "to_array", "length"}}
+ \cup {C1("to_number", Lit(v)) : v \in FnNumStrs} \cup {C1("to_number", fA), C1("to_string", fA), C1("abs", fA), C1("ceil", fA), C1("floor", fA)}
+ \cup {C1(f, Lit(O0)) : f \in {"keys", "values", "merge", "to_array", "length"}} \cup {C1(f, fA) : f \in {"keys", "values"}}
+ \cup {C2("map", Ref(Current), Lit(A0)), C2("map", Ref(Current), fC), C2("sort_by", Lit(A0), Ref(Current)), C2("max_by", Lit(A0), Ref(Current)), C2("min_by", fC, Ref(Current)),
+       C2("merge", Lit(O0), Lit(O0)), C2("not_null", Lit(Null), Lit(Null)), C2("join", LitA, Lit(A0))}
+ \cup {Proj(b, fA) : b \in {fA, fC, Current}} \cup {Proj(Flat(b), Identity) : b \in {fA, fC, Current}} \cup {VProj(b, fA) : b \in {fA, fC, Current}}
+ \cup {Filt(b, Identity, Lit(Bool(FALSE))) : b \in {fA, fC, Current}} \cup {SliceOf(b, IntP(5), NoneP, NoneP) : b \in {fA, fC, Current}}
+ \cup {MSL(<<fA>>), MSH(<<KV(cA, fA)>>), Lit(A0), Lit(O0), Pipe(fC, Proj(Identity, Identity))})
+DocsJson == {O2(cA, x, cC, A0) : x \in {A0, O0, Null, I(1), Half, I(-1), S(<<105, 110, 102>>), S(<<78, 97, 78>>), S(<<49, 101, 51, 48, 57>>), S(<<49>>), A2(I(1), I(2)), O1(cA, A0), A1(A0)}}
+            \cup {A0, O0, Null}
+
 (* ---------------- family table ------------------------------------------------------------ *)
-L1 == CASE Family = "C01" -> CoreL1
-NS == CASE Family = "C01" -> CoreNS
-Dim(s) == CASE Family = "C01" -> CoreDim(s)
-Wrap(s, x, k) == CASE Family = "C01" -> CoreWrap(s, x, k)
-DocSet == CASE Family = "C01" -> DocsCore
+L1 == CASE Family = "C01" -> CoreL1 [] Family = "C02" -> ProjL1 [] Family = "C07" -> OpL1 [] Family = "C07d" -> OpDocL1
+        [] Family = "C09" -> FnL1 [] Family = "C09n" -> FnNestL1 [] Family = "C10" -> <<>> [] Family = "C10d" -> MxDocL1
+        [] Family = "C10k" -> ByL1 [] Family = "C11" -> ErrL1 [] Family = "C16" -> JsonL1
+NS == CASE Family = "C01" -> CoreNS [] Family = "C02" -> ProjNS [] Family = "C07" -> OpNS [] Family = "C09" -> FnNS
+        [] Family = "C09n" -> FnNestNS [] Family = "C11" -> CtxNS [] OTHER -> 0
+Dim(s) == CASE Family = "C01" -> CoreDim(s) [] Family = "C02" -> ProjDim(s) [] Family = "C07" -> OpDim(s) [] Family = "C09" -> FnDim(s)
+            [] Family = "C09n" -> FnNestDim(s) [] Family = "C11" -> CtxDim(s)
+Wrap(s, x, k) == CASE Family = "C01" -> CoreWrap(s, x, k) [] Family = "C02" -> ProjWrap(s, x, k) [] Family = "C07" -> OpWrap(s, x, k)
+                   [] Family = "C09" -> FnWrap(s, x, k) [] Family = "C09n" -> FnNestWrap(s, x, k) [] Family = "C11" -> CtxWrap(s, x, k)
+DocSet == CASE Family = "C01" -> DocsCore [] Family = "C02" -> DocsProj [] Family \in {"C07", "C09", "C10", "C10k"} -> {Null}
+            [] Family = "C07d" -> DocsOp [] Family = "C09n" -> DocsFnNest [] Family = "C10d" -> DocsMx [] Family = "C11" -> DocsCtx
+            [] Family = "C16" -> DocsJson
+(* number of wrapping levels: 1 = only L1; 2 = one Wrap; 3 = two nested Wraps *)
+Levels == CASE Family \in {"C07d", "C10d", "C10k", "C16"} -> 1 [] Family \in {"C01", "C07", "C11"} -> 3 [] Family = "C10" -> 0 [] OTHER -> 2
+EmitL1 == Family \notin {"C09"}
 Styles == <<StMin, StFull, StQuoted>>
 WsOf(k) == CASE k = 1 -> "tight" [] k = 2 -> "space" [] k = 3 -> "mixed"
 
 (* TLC does not reliably cache zero-arity definitions that go through parametrised operators, but it
    does cache LET-bound values and operator arguments; so the heavy tables (L1, documents, sizes)
-   are computed once in the single ASSUME below and passed down as the record g. *)
+   are computed once (Ctx) and passed down as the record g. *)
 RECURSIVE CumDim(_)
 CumDim(s) == IF s = 0 THEN 0 ELSE CumDim(s - 1) + Dim(s)
-Ctx == LET l1 == L1 IN
-       [l1 |-> l1, docs |-> SetToSeq(DocSet), n1 |-> Len(l1), cum |-> [s \in 0..NS |-> CumDim(s)],
-        total |-> Len(l1) + Len(l1) * CumDim(NS)]
-(* expression number i (0-based): the first n1 are L1 itself; the rest are Wrap(s, L1[x], k) *)
+Ctx == LET l1 == L1
+           n1 == Len(l1)
+           sum == CumDim(NS)
+           t1 == IF Family = "C10" THEN MxTotal ELSE IF EmitL1 THEN n1 ELSE 0
+           t2 == IF Levels >= 2 THEN n1 * sum ELSE 0
+           t3 == IF Levels >= 3 THEN n1 * sum * sum ELSE 0
+       IN [l1 |-> l1, docs |-> SetToSeq(DocSet), n1 |-> n1, cum |-> [s \in 0..NS |-> CumDim(s)], sum |-> sum,
+           t1 |-> t1, t2 |-> t2, total |-> t1 + t2 + t3]
+(* code o in 0..sum-1 -> Wrap(s, x, k) *)
+WrapCode(g, o, x) == LET s == CHOOSE t \in 1..NS : g.cum[t - 1] <= o /\ o < g.cum[t] IN Wrap(s, x, o - g.cum[s - 1] + 1)
 ExprAt(g, i) ==
-  IF i < g.n1 THEN g.l1[i + 1]
-  ELSE LET sum == g.cum[NS]
-           j == i - g.n1
-           x == (j \div sum) + 1
-           o == j % sum
-           s == CHOOSE t \in 1..NS : g.cum[t - 1] <= o /\ o < g.cum[t]
-       IN Wrap(s, g.l1[x], o - g.cum[s - 1] + 1)
-
+  IF Family = "C10" THEN MxAt(i)
+  ELSE IF i < g.t1 THEN g.l1[i + 1]
+  ELSE IF i < g.t1 + g.t2 THEN LET j == i - g.t1 IN WrapCode(g, j % g.sum, g.l1[(j \div g.sum) + 1])
+  ELSE LET j == i - g.t1 - g.t2
+           x == g.l1[(j \div (g.sum * g.sum)) + 1]
+           o == j % (g.sum * g.sum)
+       IN WrapCode(g, o % g.sum, WrapCode(g, o \div g.sum, x))
+(* arithmetic progression lo+off, lo+off+step, ... below hi, as a sequence *)
+Prog(lo, hi, step, off) == IF lo + off >= hi THEN <<>> ELSE [m \in 1..(((hi - lo - off - 1) \div step) + 1) |-> lo + off + (m - 1) * step]
+(* the indices handled by shard sh of n: levels 1-2 thinned by stride st, level 3 by stride st3 (seeded slices) *)
+MineSeq(g, sh, n, st, st3, seed) ==
+  Prog(0, g.t1 + g.t2, n * st, n * (seed % st) + sh) \o Prog(g.t1 + g.t2, g.total, n * st3, n * (seed % st3) + sh)
+(* level of index i: 1, 2 or 3 *)
+LevelOf(g, i) == IF i < g.t1 THEN 1 ELSE IF i < g.t1 + g.t2 THEN 2 ELSE 3
 =============================================================================
